@@ -1,5 +1,5 @@
 #!/usr/bin/env python3
-"""C02_switch.py <cmp-rhs|match-nodefault|ifexp|boolop-value|augport|portname> [<commit>] [--verif DIR] [--repo DIR]
+"""C02_switch.py <cmp-rhs|match-nodefault|ifexp|boolop-value|augport|portname|match-guard> [<commit>] [--verif DIR] [--repo DIR]
 
 Run ONCE, right after fixes/C02-<id>.diff has been committed in /repo (run it with /venv/bin/python).  It switches the C02
 development to the repaired transpiler for that finding:
@@ -11,7 +11,7 @@ development to the repaired transpiler for that finding:
                               repo), Proofs/C02/Refuted.v the lemma `<x>_repaired : tv_block src tgt = true`,
                               Properties/C02.v the theorem C02_repaired_<x> (+ Print Assumptions)
   * boolop-value              the construct is refused now: the refutation (about text that is no longer produced) is removed
-  * match-nodefault, ifexp, augport   had no Coq witness (unparsable text / refusal): JSON status only
+  * match-nodefault, ifexp, augport, match-guard   had no Coq witness (unparsable text / refusal): JSON status only
   * docs/C02.md               one line under Findings
 The switches are independent.  Regions are located by (* <C02-id> *) ... (* </C02-id> *); the script refuses to run twice."""
 import sys, os, re, json
@@ -25,7 +25,7 @@ for opt in ('--verif', '--repo'):
         else: repo = args[i + 1]
         del args[i:i + 2]
 fid = args[0]; commit = args[1] if len(args) > 1 else None
-IDS = ('cmp-rhs', 'match-nodefault', 'ifexp', 'boolop-value', 'augport', 'portname')
+IDS = ('cmp-rhs', 'match-nodefault', 'ifexp', 'boolop-value', 'augport', 'portname', 'match-guard')
 assert fid in IDS, 'unknown id %s (one of %s)' % (fid, ', '.join(IDS))
 TAG = 'C02-' + fid
 CASE = {'cmp-rhs': ('CmpRhs', (4, 1, 1), 'cmp_rhs'), 'portname': ('PortName', (4, 4, 5), 'portname'), 'boolop-value': ('OrValue', (4, 4, 4), 'boolop_value')}
@@ -93,7 +93,7 @@ dp = os.path.join(verif, 'docs', 'C02.md')
 if os.path.exists(dp):
     s = open(dp).read()
     line = '* %s: repaired in /repo%s (fixes/C02-%s.diff); the witness class now %s.\n' % (
-        TAG, ' by ' + commit if commit else '', fid, 'is refused by the transpiler' if fid in ('boolop-value', 'augport') else 'validates')
+        TAG, ' by ' + commit if commit else '', fid, 'is refused by the transpiler' if fid in ('boolop-value', 'augport', 'match-guard') else 'validates')
     s = s.replace('## What a run does', line + '\n## What a run does', 1) if '## What a run does' in s else s + '\n' + line
     open(dp, 'w').write(s)
 print('switched %s%s' % (TAG, ' (commit %s)' % commit if commit else ''))
